@@ -283,10 +283,11 @@ theorem conformingConvertsToItself_false : ¬ ConformingConvertsToItself := by
   rw [conforming_converts_to_itself_counterexample.2.2.1] at this
   simp at this
 
-/-- What does hold, placeholders anywhere in the target: on lists and maps nested to any depth over
-primitive leaves, a value that conforms to the target and is SPELLED OUT wherever the target is
-(`D08B.solidFor`: a primitive of the same type, or a NON-EMPTY list / map of such members; anything
-unmarked below a placeholder of the target) converts to itself — for every environment satisfying
+/-- What does hold, placeholders anywhere in the target: on lists, maps and tuples nested to any depth
+over primitive leaves, a value that conforms to the target and is SPELLED OUT wherever the target is
+(`D08B.solidFor`: a primitive of the same type, a NON-EMPTY list / map of such members, or a tuple of
+such members against a tuple type of the same length; anything unmarked below a placeholder of the
+target) converts to itself — for every environment satisfying
 `UnifyLaws`, every fuel (or the model runs out of fuel), by induction over the plans
 `getConversionKnown` builds for such pairs.  The empty collection is exactly what the hypothesis
 excludes, and `conforming_converts_to_itself_counterexample` shows it cannot be dropped. -/
@@ -318,7 +319,7 @@ theorem idempotent_spelled_out_partial (E : Env) (hU : UnifyLaws E) (fuel fuel' 
   conforming_converts_to_itself_partial E hU fuel' r.ty want r.v hw hd ho hs hg
 
 /-- … and `ResultResolvesPlaceholders` on that fragment: a spelled-out (in particular NON-EMPTY at every
-level) list / map nest resolves every placeholder of the target, nested ones included — the result is
+level) list / map / tuple nest resolves every placeholder of the target, nested ones included — the result is
 the value itself, whose type has none. -/
 theorem result_resolves_placeholders_spelled_out_partial (E : Env) (hU : UnifyLaws E) (fuel : Nat)
     (inT want : Ty) (p : Payload) (r : Value) (hw : wf inT = true) (hd : hasDyn inT = false)
@@ -344,6 +345,11 @@ example : D08B.solidFor (.list (.list (.map .dyn))) (.list (.list (.map .bool)))
 example : (getConv Env.simple (.list (.list (.map .bool))) (.list (.list (.map .dyn))) true).isSome = true := by decide
 example : D08B.solidFor (.list (.list (.map .dyn))) (.list (.list (.map .bool)))
     (.seq [.seq [], .seq [.smap ["k"] [.b true]]]) = false := by decide
+example : D08B.solidFor (.tuple [.list .dyn, .string]) (.tuple [.list .number, .string])
+    (.seq [.seq [.n (.fin false 1 0 512)], .s "x"]) = true := by decide
+example : convert Env.simple 8 ⟨.tuple [.list .number, .string], .seq [.seq [.n (.fin false 1 0 512)], .s "x"]⟩
+    (.tuple [.list .dyn, .string]) =
+    .ok ⟨.tuple [.list .number, .string], .seq [.seq [.n (.fin false 1 0 512)], .s "x"]⟩ := rfl
 
 /-- the same two lists without the empty one convert to themselves: the failure needs the empty member -/
 example : convert Env.simple 8 ⟨.list (.list (.map .bool)), .seq [.seq [.smap ["j"] [.b false]], .seq [.smap ["k"] [.b true]]]⟩
